@@ -638,6 +638,14 @@ pub fn check_main(def: &'static PropDef, opts: &CheckOpts) -> i32 {
 		let class_full = class;
 		let class = &bare;
 		let r = eval_isolated_with(def, &case, "confirm", &exe);
+		if !r.violations.iter().any(|(cl, _)| cl == class) && class.starts_with("real/") {
+			// Seen in a fidelity run against a real kernel object (a pipe whose reader leaves):
+			// when xt misbehaves, the outcome of such a run can depend on kernel timing, which
+			// the simulator does not own. Not reportable as a violation (it does not replay);
+			// a harness fault unless replayable violations tell the story anyway.
+			harness_faults.push(format!("[harness/fidelity-unreplayable] class '{class}' of run {idx} (real kernel object) did not replay in a fresh process: {first_msg}"));
+			continue;
+		}
 		if !r.violations.iter().any(|(cl, _)| cl == class) {
 			harness_faults.push(format!("violation class '{class}' of run {idx} did not replay in a fresh process ({:?})", r.violations.iter().map(|v| &v.0).collect::<Vec<_>>()));
 			continue;
